@@ -50,7 +50,8 @@ def run(ck):
                       ('R16.2', 'admitted operator x type combinations are valid C++ as printed'),
                       ('R16.3', 'every facility printed has its include; the include scan sees every printed body'),
                       ('R16.4', 'emitted function names are distinct'),
-                      ('R16.5', 'indices, guard and observer arrays are sized from the same counters')):
+                      ('R16.5', 'indices, guard and observer arrays are sized from the same counters'),
+                      ('R16.6', 'callback parameters are passed in a way that keeps every use well-formed')):
         ck.rule(rid, text)
 
     bfns = [f for f in L.fn_list if 'uigen::binding' in f['path']]
@@ -281,6 +282,18 @@ def run(ck):
                   'yields the code body' if rets else 'descends into the nested property map' if push else
                   'a property kind is skipped by the iterator: code bodies below it are translated but never scanned for includes', fn=nx['path'])
         ck.ob('R16.3', 'nested-bodies-all-kinds', m is not None and (not variants or set(variants) <= seen), L.loc(m) if m else L.loc(nx['body']), 'kinds handled: %s' % sorted(seen))
+        # nothing the iterator pulls is skipped: the translator prints constant sub-properties of a dynamic gadget map too
+        skips = [x for x in walk(nx['body']) if x.get('k') == 'Continue']
+        pb = next((b for b in H.binding_sites(nx).values() if b['kind'] == 'letcond' and any(c.get('m') == 'next' for c in H.calls_in(b['node']['e']))), None)
+        conds = []
+        if pb is not None and m is not None:
+            for a in H.ancestors(nx, m):
+                if a.get('k') == 'If' and a['c'] is not pb['node'] and a['c'].get('k') != 'LetCond':
+                    conds.append(pp(a['c'], maxlen=60))
+        filt = [c.get('m') for c in H.calls_in(nx['body']) if c.get('m') in FILTERS | {'filter_map', 'find'}]
+        ck.ob('R16.3', 'nested-bodies-none-skipped', not skips and not conds and not filt, L.loc(skips[0]) if skips else L.loc(nx['body']),
+              'every property pulled from the maps is dispatched on its kind' if not (skips or conds or filt) else
+              'the include scan skips some properties (%s) although the translator prints every sub-property of a dynamic gadget map' % (['continue'] * len(skips) + conds + filt), fn=nx['path'])
 
     # ---- R16.4 names ---------------------------------------------------------------------------------------------------------------
     name_fns = {}
@@ -332,7 +345,7 @@ def run(ck):
                     else:
                         r = H.root_local(e)
                         b = H.binding_sites(fn).get((r or {}).get('hid'))
-                        if b is not None and b['kind'] == 'param' and b['bind']['name'] == 'update_function_name':
+                        if b is not None and b['kind'] == 'param' and 'str' in (fn['inputs'][b['index']] if b['index'] < len(fn['inputs']) else ''):
                             ok = True
                             why = 'update function name handed down by the owning binding'
                 ck.ob('R16.4', 'call-uses-name-method|%s|%s' % (short(fn['path']), t.strip()[:40]), ok, L.loc(s['node']), why, fn=fn['path'])
@@ -348,14 +361,15 @@ def run(ck):
     ck.ob('R16.4', 'one-generator', len(gens) == 1, L.loc(gens[0][1]) if gens else '', '%d UniqueNameGenerator::new() in uigen::binding' % len(gens))
     for fn, c, cal in ctor_sites:
         callee_fn = L.fns.get(H.callee(c))
-        pidx = next((i for i, p in enumerate(callee_fn['params']) if any(b['name'] in ('name', 'function_name_suffix') for b in H.pat_bindings(p))), None) if callee_fn else None
+        pidx = name_param_index(callee_fn) if callee_fn else None
         if pidx is None:
             ck.ob('R16.4', 'name-from-generator|%s|%s' % (short(fn['path']), cal), False, L.loc(c), 'name parameter not found')
             continue
         arg = c['args'][pidx]
         org = H.origins(fn, arg)
         gen_calls = [o for o in org if o.get('k') == 'MCall' and o.get('m') == 'generate' and 'UniqueNameGenerator' in (L.ty(o['recv'], adjusted=True) or L.ty(o['recv']) or '')]
-        from_param = [o for o in org if o.get('k') == 'Bind' and o.get('name') == 'name']
+        own_idx = name_param_index(fn)
+        from_param = [o for o in org if o.get('k') == 'Bind' and own_idx is not None and (H.binding_sites(fn).get(o.get('hid')) or {}).get('index') == own_idx and (H.binding_sites(fn).get(o.get('hid')) or {}).get('kind') == 'param']
         other = [o for o in org if o not in gen_calls and o not in from_param]
         ok = bool(gen_calls or from_param) and not other
         # a `name` parameter is fine when every caller of this function passes a generated name (checked at those sites)
@@ -389,6 +403,51 @@ def run(ck):
             if rule == 'R10.3' and key == 'issued-names-consulted|generate':
                 self.o.ob('R16.4', 'C10:' + key, ok, loc, detail, nontrivial, fn)
     c10.run(Sub(ck))
+
+    # ---- R16.6 callback parameters: by value, or by const reference only behind a complete mutation test ------------------------------
+    ccb = next((f for f in bfns if f['path'].endswith('CxxCallback::build')), None)
+    if ccb is None:
+        ck.floor('R16.6', 0, 1, 'fn CxxCallback::build')
+    else:
+        st = next((n for n in walk(ccb['body']) if n.get('k') == 'Struct' and (n.get('def') or '').endswith('CxxCallback')), None)
+        fe = next((f['e'] for f in (st or {}).get('fields', []) if f.get('f') == 'parameters'), None)
+        b = H.binding_sites(ccb).get((H.root_local(fe) or {}).get('hid')) if fe is not None else None
+        src = b['node']['init'] if b is not None and b['kind'] == 'let' else fe
+        clo = next((mm['args'][0] for mm in walk(src) if mm.get('k') == 'MCall' and mm.get('m') == 'map' and mm['args'] and mm['args'][0].get('k') == 'Closure'), None) if src else None
+        ok = False
+        why = 'parameter list construction not found'
+        if clo is not None:
+            rets = list(H.return_exprs(clo['body'], is_closure=True))
+            tys = []
+            for r in rets:
+                if r.get('k') == 'Tup' and r['es']:
+                    t0 = r['es'][0]
+                    bb = H.binding_sites(ccb).get((H.root_local(t0) or {}).get('hid')) if H.strip_refs(t0).get('k') == 'Path' else None
+                    tys += list(H.value_exprs(bb['node']['init'])) if bb is not None and bb['kind'] == 'let' and bb['node'].get('init') is not None else [t0]
+            byval = [t for t in tys if any(c.get('m') == 'qualified_cxx_name' for c in H.calls_in(t)) and not any(x is s2['node'] for s2 in sites_of[ccb['path']] for x in walk(t))]
+            deco = [t for t in tys if t not in byval]
+            if tys and not deco:
+                ok = True
+                why = 'parameters are declared `<type> <name>` (by value): any use inside the handler is well-formed'
+            elif deco:
+                # decorated spelling: find the test it is conditioned on and check that it knows every writing statement kind
+                helper = None
+                for t in deco:
+                    for a in H.ancestors(ccb, t):
+                        if a.get('k') == 'If':
+                            for c in H.calls_in(a['c']):
+                                f2 = L.fns.get(H.callee(c) or '')
+                                if f2 is not None and f2['path'].startswith('uigen::binding'):
+                                    helper = f2
+                need = {'Assign', 'WriteProperty', 'WriteSubscript', 'CallMethod'}
+                seen = set()
+                if helper is not None:
+                    t = pp(helper['body'], maxlen=4000)
+                    seen = {n for n in need if re.search(r'\b%s\b' % n, t)}
+                ok = helper is not None and seen == need
+                why = ('a parameter is spelled with a qualifier (%s); the test guarding it (%s) knows the statement kinds %s of the four that can modify a local '
+                       '(assignment, property write, subscript write, method call on it)' % (pp(deco[0], maxlen=40), short(helper['path']) if helper else 'none found', sorted(seen)))
+        ck.ob('R16.6', 'callback-parameters-by-value-or-proved-unmodified', ok, L.loc(src) if src else L.loc(ccb['body']), why, fn=ccb['path'])
 
     # ---- R16.5 sizes and loops ---------------------------------------------------------------------------------------------------------
     usc = [f for f in bfns if f['path'].startswith('uigen::binding::UiSupportCode::write_')]
@@ -489,6 +548,33 @@ def run(ck):
     ck.ob('R16.5', 'observer-ref-constructors', pr == ['CodeBody::alloc_property_observer'], '', 'PropertyObserverRef(..) is built by %s' % pr)
 
 
+def field_param_index(fn, fields):
+    """index of the parameter whose value initialises one of the named fields of the struct literal the function builds
+    (directly, through .into()/.to_owned(), or through one let)."""
+    bs = H.binding_sites(fn)
+    for st in (n for n in walk(fn['body']) if n.get('k') == 'Struct'):
+        for f in st.get('fields', []):
+            if f.get('f') in fields:
+                r = H.root_local(f['e'])
+                seen = set()
+                while r is not None and r.get('hid') not in seen:
+                    seen.add(r.get('hid'))
+                    b = bs.get(r.get('hid'))
+                    if b is None:
+                        break
+                    if b['kind'] == 'param':
+                        return b['index']
+                    if b['kind'] == 'let' and b['node'].get('init') is not None:
+                        r = H.root_local(b['node']['init'])
+                    else:
+                        break
+    return None
+
+
+def name_param_index(fn):
+    return field_param_index(fn, ('name', 'function_name_suffix'))
+
+
 def tr_context_is_type_name(L, bfns):
     """every CxxCodeBodyTranslator::new(.., tr_context, ..) receives the local that also initialises UiSupportCode.self_class."""
     b = next((f for f in bfns if f['path'].endswith('UiSupportCode::build')), None)
@@ -499,7 +585,7 @@ def tr_context_is_type_name(L, bfns):
     root = (H.root_local(fi['e']) or {}).get('hid') if fi else None
     news = [c for f in bfns for c in H.calls_in(f['body']) if H.is_call_to(c, 'CxxCodeBodyTranslator::new')]
     tn = L.fn('uigen::binding::CxxCodeBodyTranslator::new')
-    pidx = next((i for i, p in enumerate(tn['params']) if any(x['name'] == 'tr_context' for x in H.pat_bindings(p))), None) if tn else None
+    pidx = field_param_index(tn, ('tr_context',)) if tn else None
     if root is None or pidx is None or not news:
         return False
     return all((H.root_local(c['args'][pidx]) or {}).get('hid') == root for c in news) and all(c in H.calls_in(b['body']) for c in news)
